@@ -8,7 +8,7 @@ namespace EupsModel.Setup
 /-- every `envPrepend` / `envAppend` / `envSet` value is `${PRODUCT_DIR}…` -/
 def OwnTables (db : Db) : Prop :=
   ∀ d ∈ db.decls, ∀ g a, (g, a) ∈ d.table →
-    (∀ var val app, a = Act.prepend var val app → ∃ rel, val = .own rel) ∧
+    (∀ var vals app, a = Act.prepend var vals app → ∀ val ∈ vals, ∃ rel, val = Val.own rel) ∧
     (∀ var val, a = Act.set var val → ∃ rel, val = .own rel)
 
 /-- `var` is the target of an `envSet` in the table of a declared version of a name in `S` -/
@@ -35,8 +35,8 @@ theorem partBy_subjInv (cfg : Cfg) (S : Name → Prop) (hown : OwnTables cfg.db)
   obtain ⟨hd, g, hg⟩ := canon_table_mem cfg.db d hc cfg.exact a ha
   rw [partBy_apply f fwd d.prod a s ?_ var]
   · exact hp var
-  · intro v val app he
-    obtain ⟨rel, rfl⟩ := (hown d hd g a hg).1 v val app he
+  · intro v vals app he val hval
+    obtain ⟨rel, rfl⟩ := (hown d hd g a hg).1 v vals app he val hval
     exact hf d.prod rel hS
 
 theorem varsInv_subjInv (cfg : Cfg) (S : Name → Prop) (hown : OwnTables cfg.db) (e0 : Env) :
@@ -47,7 +47,7 @@ theorem varsInv_subjInv (cfg : Cfg) (S : Name → Prop) (hown : OwnTables cfg.db
   cases a with
   | prepend v val app => cases fwd <;> exact ⟨hp.other, hp.mine⟩
   | alias k' v => cases fwd <;> exact ⟨hp.other, hp.mine⟩
-  | dep n o j v x => exact hp
+  | dep n o j v x t => exact hp
   | set var val =>
     have hsv : SetVar cfg.db S var := ⟨d, hd, hS, g, val, hg⟩
     obtain ⟨rel, rfl⟩ := (hown d hd g _ hg).2 var val rfl
@@ -100,10 +100,10 @@ theorem dirClean_subjInv (cfg : Cfg) (S : Name → Prop) : SubjInv cfg (fun _ n 
 
 /-- a set of names closed under the dependency lines of every declared version -/
 def Closed (db : Db) (S : Name → Prop) : Prop :=
-  ∀ d ∈ db.decls, S d.name → ∀ g n o j v x, (g, Act.dep n o j v x) ∈ d.table → S n
+  ∀ d ∈ db.decls, S d.name → ∀ g n o j v x t, (g, Act.dep n o j v x t) ∈ d.table → S n
 
 theorem closed_closedAt (cfg : Cfg) (S : Name → Prop) (h : Closed cfg.db S) : ClosedAt cfg (fun _ n => S n) :=
-  fun d hd _ hS _ g n o j v x hg => h d hd hS g n o j v x hg
+  fun d hd _ hS _ g n o j v x t hg => h d hd hS g n o j v x t hg
 
 end EupsModel.Setup
 
@@ -113,7 +113,9 @@ namespace EupsModel.Setup
 def ownTablesB (db : Db) : Bool :=
   db.decls.all fun d => d.table.all fun ga =>
     match ga.2 with
-    | .prepend _ (.lit _) _ => false
+    | .prepend _ vals _ => vals.all fun v => match v with
+      | .own _ => true
+      | .lit _ => false
     | .set _ (.lit _) => false
     | _ => true
 
@@ -125,11 +127,13 @@ theorem ownTables_of_check (db : Db) (h : ownTablesB db = true) : OwnTables db :
   rw [List.all_eq_true] at h1
   have h2 := h1 (g, a) hg
   constructor
-  · intro var val app he
+  · intro var vals app he val hval
     subst he
+    simp only [List.all_eq_true] at h2
+    have h3 := h2 val hval
     cases val with
     | own rel => exact ⟨rel, rfl⟩
-    | lit s => simp at h2
+    | lit s => simp at h3
   · intro var val he
     subst he
     cases val with
